@@ -104,14 +104,15 @@ def environment(rng, pool, tree=None):
     if rng.random() < 0.05:
         return None
     env = {}
+    complete = rng.random() < 0.15        # every variable supplied: nothing is left to the detected values
     for v in VARS:
         if v == "extra":
             r = rng.random()
             if r < 0.3:
                 continue
-            env[v] = None if r < 0.4 else rng.choice(pool + ["Foo_Bar", "foo-bar", "FOO.BAR", "test", ""])
+            env[v] = None if r < 0.45 else rng.choice(pool + ["Foo_Bar", "foo-bar", "FOO.BAR", "test", ""])
             continue
-        if rng.random() < 0.25:
+        if not complete and rng.random() < 0.25:
             continue
         r = rng.random()
         if v == "python_full_version" and r < 0.3:
